@@ -4,7 +4,8 @@ CONSTANT MaxSteps = 5
 CONSTANT MaxNums = {0}
 CONSTANT Olds = {FALSE}
 CONSTANT Kinds <- KTwo
-CONSTANT Ranges <- RFour
+CONSTANT Ranges <- RTwo
+CONSTANT DocEvs <- DOne
 CONSTANT MaxDup = 2
 CONSTANT MaxRangeArr = 2
 CONSTANT Policy = "any"
